@@ -483,7 +483,9 @@ fn chars(s: &str) -> Vec<String> {
 
 pub fn drive_c15(t: &Tier, m: &mut Matrix, sink: &mut Sink) {
     let mut rng = Rng::new(t.seed ^ 0xC15);
-    let bad = ["x", "2", " ", "g", "G", "é", "😀", "-", "+", "_", "٣", "O"];
+    // offending characters: near misses, signs, non-ASCII letters and digits of other scripts, control
+    // characters and characters whose low byte (or case-folded low byte) is an ASCII digit
+    let bad = ["x", "2", " ", "g", "G", "é", "😀", "-", "+", "_", "٣", "O", "\u{10}", "\u{11}", "\u{19}", "１", "０", "ı", "Ł", "`", "@", "/", ":", "ａ", "Ａ", "\u{661}", "\u{131}"];
     let hexd: Vec<String> = chars("0123456789abcdefABCDEF");
     fn run_parse(m: &mut Matrix, sink: &mut Sink, op: &'static str, cs: Vec<String>, rng: &mut Rng) {
         let a = Args { chars: Some(cs), byval: rng.chance(1, 2), ..Default::default() };
@@ -518,6 +520,21 @@ pub fn drive_c15(t: &Tier, m: &mut Matrix, sink: &mut Sink) {
                 let a = Args { chars: Some(s2), byval: false, ..Default::default() };
                 let ks: Vec<Kind> = ALL_KINDS.iter().copied().filter(|k| k.admits(n)).collect();
                 sink.emit(m.run(&Case::new("from_binary", vec![]).a(a).capsens().xk(ks)));
+            }
+        }
+    }
+    // a string of exactly `capacity` characters whose offending character takes several bytes
+    for k in ALL_KINDS.iter().copied().filter(|k| k.is_fixed()) {
+        let cap = k.fixed_cap().unwrap();
+        for (op, per) in [("from_binary", 1usize), ("from_hex", 4)] {
+            let n = cap / per;
+            for badc in ["é", "😀", "１"] {
+                for p in [0, n - 1] {
+                    let mut s2: Vec<String> = (0..n).map(|i| if i % 3 == 0 { "1".to_string() } else { "0".to_string() }).collect();
+                    s2[p] = badc.to_string();
+                    let a = Args { chars: Some(s2), byval: false, ..Default::default() };
+                    sink.emit(m.run(&Case::new(op, vec![]).a(a).capsens().xk(vec![k])));
+                }
             }
         }
     }
